@@ -25,6 +25,7 @@ VARIABLES hist, out
 
 gvars == <<cvars, hist, out>>
 
+Names1 == <<"a">>
 Names2 == <<"a", "b">>
 Names3 == <<"a", "b", "c">>
 Names4 == <<"a", "b", "c", "d">>
